@@ -120,14 +120,14 @@ ODD_KINDS = ["data_after_response", "connect_no_path", "non_ascii_path", "invali
              "priority_before_headers", "rst_closed", "wu_closed", "continuation", "padded", "req_trailers",
              "ext_connect_no_protocol", "zero_data_flood", "settings_churn", "ping_flood", "huge_header",
              "empty_header_value", "authority_non_utf8", "dup_pseudo", "rst_open", "data_on_idle_rst", "non_ascii_method", "late_data_flood",
-             "frames_on_refused_connect", "data_during_ws_rejection"]
+             "frames_on_refused_connect", "data_during_ws_rejection", "frames_during_blocked_end_stream"]
 
 # kinds the statement names as "merely unusual or invalid at the HTTP level": siblings must complete
 STREAM_LEVEL = {"data_after_response", "connect_no_path", "non_ascii_path", "invalid_utf8_path", "rst_closed",
                 "wu_closed", "continuation", "padded", "req_trailers", "priority_before_headers",
                 "empty_header_value", "rst_open", "ping_flood", "settings_churn", "huge_header",
                 "priority_idle_flood", "zero_data_flood", "authority_non_utf8", "non_ascii_method", "late_data_flood",
-                "frames_on_refused_connect", "data_during_ws_rejection"}
+                "frames_on_refused_connect", "data_during_ws_rejection", "frames_during_blocked_end_stream"}
 
 
 def _case_grammar(rng, n, kind=None):
@@ -300,6 +300,28 @@ def _case_grammar(rng, n, kind=None):
     elif kind == "data_on_idle_rst":
         steps.append(["feed", fb.data(odd_sid, b"zz")])
         expect_conn_error = True
+    elif kind == "frames_during_blocked_end_stream":
+        # the client is slow to read: the write that carries a stream's END_STREAM is held up, and meanwhile perfectly legal
+        # flow-control frames concerning that stream / the connection arrive
+        steps.append(["feed", fb.headers(odd_sid, [(b":method", b"GET"), (b":scheme", b"http"), (b":path", b"/slowend"), (b":authority", b"h.example")], end_stream=True)])
+        steps.append(["settle"])
+        steps.append(["pause"])
+        steps.append(["trigger", "go"])
+        steps.append(["settle"])
+        follow = rng.choice(["wu0", "wu0", "wu_stream", "settings_iw", "rst", "wu0+wu_stream"])
+        b = b""
+        if "wu0" in follow:
+            b += fb.window_update(0, 1000)
+        if "wu_stream" in follow:
+            b += fb.window_update(odd_sid, 1000)
+        if follow == "settings_iw":
+            b += fb.settings({4: 70000})
+        if follow == "rst":
+            b += fb.rst(odd_sid, 8)
+        steps.append(["feed", b])
+        steps.append(["settle"])
+        steps.append(["resume"])
+        steps.append(["settle"])
     elif kind == "data_during_ws_rejection":
         # extended CONNECT whose application is half-way through an HTTP rejection (head and part of the body sent) when the client,
         # which cannot know, sends WebSocket data on the stream
@@ -321,6 +343,8 @@ def _case_grammar(rng, n, kind=None):
         config["server_names"] = ["h.example"]
     apps = {"default": OK_APP, "websocket": WS_APP, "by_tag": by_tag,
             "by_path": {"/early": [["respond", 200, [], b"early"]],
+                        "/slowend": [["recv_until_end"], ["try_send", {"type": "http.response.start", "status": 200, "headers": []}], ["wait", "go"],
+                                     ["try_send", {"type": "http.response.body", "body": b"", "more_body": False}]],
                         "/wsrej": [["recv"], ["try_send", {"type": "websocket.http.response.start", "status": 401, "headers": [(b"x-why", b"auth")]}],
                                    ["try_send", {"type": "websocket.http.response.body", "body": b"par", "more_body": True}], ["wait", "never"]]}}
     return {
@@ -366,6 +390,22 @@ def gen(rng, tier):
             val = rng.choice([b"caf\xc3\xa9", b"\xff\xfe", b"a, \xe2\x82\xac", b"permessage-deflate; \xd0", b"", b",,,", b"x" * 300])
             data = ws.handshake(path=b"/t%d" % i, extra=[(nm, val)]) + ws.message_frames(ws.OP_TEXT, b"hi")
             yield _base(rng, "ws.hdr", data)
+        elif r < 0.535:
+            # a handshake the application refuses with a response of its own (and then keeps waiting for its disconnect), followed by
+            # WebSocket frames from a client that has not read the refusal yet
+            how = rng.choice(["close", "http_full", "http_partial"])
+            rej = {"close": [["recv"], ["try_send", {"type": "websocket.close"}], ["recv_until_disconnect"]],
+                   "http_full": [["recv"], ["try_send", {"type": "websocket.http.response.start", "status": 401, "headers": [(b"x-why", b"auth")]}],
+                                 ["try_send", {"type": "websocket.http.response.body", "body": b"no"}], ["recv_until_disconnect"]],
+                   "http_partial": [["recv"], ["try_send", {"type": "websocket.http.response.start", "status": 401, "headers": []}],
+                                    ["try_send", {"type": "websocket.http.response.body", "body": b"par", "more_body": True}], ["recv_until_disconnect"]]}[how]
+            frames = ws.message_frames(ws.OP_TEXT, b"hello-%d" % i) + (ws.frame(ws.OP_PING, b"p") if rng.random() < 0.5 else b"")
+            c = _base(rng, "ws.rejected-then-data", ws.handshake(path=b"/t%d" % i))
+            c["apps"] = {"default": OK_APP, "websocket": rej}
+            c["client"] = [["feed", ws.handshake(path=b"/t%d" % i)], ["settle"], ["feed", frames], ["settle"], ["feed", frames], ["settle"], ["eof"]]
+            c["truth"] = {"data": ws.handshake(path=b"/t%d" % i) + frames, "how": how}
+            c["config"].pop("server_names", None)
+            yield c
         elif r < 0.545:
             # valid head, then a body that violates its framing while the application is still reading it
             head = b"POST /t%d HTTP/1.1\r\nHost: h\r\nTransfer-Encoding: chunked\r\n\r\n" % i
